@@ -6,7 +6,7 @@ From Coq Require Import QArith String.
 From G Require Import C08_gen C08_defs C08_tie.
 
 Theorem C08_pipeline_scale_equivariant :
-  forall (V : Type) (act : V -> V) lin padof padapply maskgen body sens masked scalef one divv image images (const nopad : V),
+  forall (V : Type) (act : V -> V) lin padof padapply maskgen body sens masked scalef one divv image images split (const nopad : V),
   (forall n v, lin n (act v) = act (lin n v)) -> (forall v, padof (act v) = padof v) -> (forall v p, padapply (act v) p = act (padapply v p)) ->
   (forall a v p, maskgen a (act v) p = maskgen a v p) -> (forall v a, body (act v) a = act (body v a)) -> (forall v a, sens (act v) a = sens v a) ->
   (forall m v, masked m (act v) = act (masked m v)) -> (forall p v, scalef p (act v) = act (scalef p v)) -> (forall v, one (act v) = one v) ->
@@ -14,13 +14,13 @@ Theorem C08_pipeline_scale_equivariant :
   forall (x : cfg), In (c_scaling x) [SKData Kspace; SKData MaskedKspace] -> claimed x = true ->
   exists e, sym_run (gen_supervised x) [(Kspace, TRaw Kspace)] = Some e /\
     forall (rho : key -> V) k t, In (k, t) e ->
-      eval V lin padof padapply maskgen body sens masked scalef one divv image images const nopad (scaled V act rho) t
-      = (if key_eqb k ScalingFactor || key_eqb k BodyCoil then act else (fun v => v)) (eval V lin padof padapply maskgen body sens masked scalef one divv image images const nopad rho t).
+      eval V lin padof padapply maskgen body sens masked scalef one divv image images split const nopad (scaled V act rho) t
+      = (if key_eqb k ScalingFactor || key_eqb k BodyCoil then act else (fun v => v)) (eval V lin padof padapply maskgen body sens masked scalef one divv image images split const nopad rho t).
 Proof.
-  intros V act lin padof padapply maskgen body sens masked scalef one divv image images const nopad H1 H2 H3 H4 H5 H6 H7 H8 H9 H10 H11 H12 H13 x Hs Hm.
+  intros V act lin padof padapply maskgen body sens masked scalef one divv image images split const nopad H1 H2 H3 H4 H5 H6 H7 H8 H9 H10 H11 H12 H13 x Hs Hm.
   pose proof (final_ok_every x Hs Hm) as F. unfold final_ok in F. destruct (sym_run (gen_supervised x) [(Kspace, TRaw Kspace)]) as [e|]; [|discriminate].
   exists e. split; [reflexivity|]. apply andb_true_iff in F. destruct F as [Fd _].
-  intros rho k t Hin. rewrite (eval_homog V act lin padof padapply maskgen body sens masked scalef one divv image images const nopad H1 H2 H3 H4 H5 H6 H7 H8 H9 H10 H11 H12 H13 rho t _ (degrees_ok_spec e Fd k t Hin)).
+  intros rho k t Hin. rewrite (eval_homog V act lin padof padapply maskgen body sens masked scalef one divv image images split const nopad H1 H2 H3 H4 H5 H6 H7 H8 H9 H10 H11 H12 H13 rho t _ (degrees_ok_spec e Fd k t Hin)).
   destruct (key_eqb k ScalingFactor || key_eqb k BodyCoil); reflexivity.
 Qed.
 Print Assumptions C08_pipeline_scale_equivariant.
@@ -36,6 +36,19 @@ Proof.
   destruct (consistent_spec e Fc) as (m & k & s & tg & A & B & C & D & E & F & G). exists e, m, k, s, tg. repeat split; assumption.
 Qed.
 Print Assumptions C08_outputs_consistent.
+
+(* the self-supervised pipeline (mask splitter after the supervised stages): every output is scale-free except the scaling
+   factor; input k-space and target k-space are the normalised masked k-space restricted to the two masks drawn from the
+   sampling mask, and the target is the image of the target k-space *)
+Theorem C08_ssl_pipeline_degrees_and_consistency : forall (x : cfg), In (c_scaling x) [SKData Kspace; SKData MaskedKspace] -> claimed x = true ->
+  exists e, sym_run (gen_ssl x) [(Kspace, TRaw Kspace)] = Some e /\ ssl_consistent e = true /\
+    forall k t, In (k, t) e -> tdeg t = Some (if key_eqb k ScalingFactor || key_eqb k BodyCoil then 1 else 0)%nat.
+Proof.
+  intros x Hs Hm. pose proof (final_ok_ssl_every x Hs Hm) as F. unfold final_ok_ssl in F.
+  destruct (sym_run (gen_ssl x) [(Kspace, TRaw Kspace)]) as [e|]; [|discriminate]. apply andb_true_iff in F. destruct F as [Fd Fc].
+  exists e. split; [reflexivity|]. split; [exact Fc|]. exact (degrees_ok_spec e Fd).
+Qed.
+Print Assumptions C08_ssl_pipeline_degrees_and_consistency.
 
 Theorem C08_zero_padding_threshold_is_relative : forall c a m eps : Q, (0 < c)%Q -> (gen_pad_test (c * a) (c * m) eps <-> gen_pad_test a m eps).
 Proof. exact pad_test_relative. Qed.
